@@ -342,12 +342,60 @@ def this_collision_case(idx, payload):
     return res
 
 
+def default_spelling_case(idx, payload):
+    """default-value texts are opaque: an identifier inside a default that merely CONTAINS the spelling of a template
+    parameter (kMaxTrackIter for T, kUnitN for U) is not a use of the parameter.  The same declarations with the
+    parameter spelled differently (defaults untouched) give the same instantiations and the same bindings."""
+    from common import impl_pybind
+    seed, _ = payload
+    rng = random.Random(seed * 1000003 + idx + 383838)
+    P = rng.choice(["T", "U", "POSE", "K", "V"])
+    Q = rng.choice(["ZZQ", "Wv9", "ARG0"])
+    M = rng.choice(["N", "D", "X"])
+    insts = rng.sample(["ns::A", "double", "ns::B", "int"], rng.randint(1, 3))
+    dflt = ["kMax%srackIter" % P, "Defaults::%s_MAX" % P, "make%s()" % P, "k%sLimit" % P.lower().capitalize() + P, "ns::k%s%s" % (M, P), "%s%s::zero" % (P, P),
+            "\"%s\"" % P, "'%s'" % P[0]]
+
+    def mk(p, m):
+        d = list(dflt)
+        rng2 = random.Random(seed * 7 + idx)
+        rng2.shuffle(d)
+        return ("namespace ns { class A { A(); }; class B { B(); }; }\n"
+                "template<%s = {%s}>\nclass Tracker {\n  Tracker(const %s& t, int n = %s);\n  void run(size_t iters = %s, double tol = %s) const;\n"
+                "  static %s Make(int seed = %s);\n  template<%s = {int, double}>\n  void put(const %s& t, %s k = %s);\n  int limit = %s;\n};\n"
+                "template<%s = {%s}>\n%s pick(const %s& x, int which = %s);\n") % (
+                    p, ", ".join(insts), p, d[0], d[1], d[2], p, d[3], m, p, m, d[4], d[5], p, ", ".join(insts), p, p, d[6])
+    a_text, b_text = mk(P, M), mk(Q, M + "9")
+    res = dict(idx=idx, text=a_text, kinds=["default_spelling"], bad=None)
+    a, b = streams.impl_inst(a_text, "icpp"), streams.impl_inst(b_text, "icpp")
+    pa, pb = (impl_pybind(t, streams.TPL_MIN, "m", [''], False, [], None) for t in (a_text, b_text))
+    if a != b or pa != pb:
+        d = streams.first_diff(b, a) if a != b else (streams.first_diff(pb[1], pa[1]) if pa[0] == pb[0] == "ok" else dict(expected=str(pb)[:200], got=str(pa)[:200]))
+        res["bad"] = dict(kind="spec", what="renaming template parameter %s to %s (default texts untouched) changes the result" % (P, Q),
+                          input=a_text, input_renamed=b_text, **d)
+    return res
+
+
+def xml_inst_case(idx, payload):
+    """with Doxygen documentation: the binding of one instantiation (docstrings included) is what it is when that
+    instantiation is requested alone — the metamorphic triple of props/c15.multi_inst_case, read for this property"""
+    from props import c15
+    r = c15.multi_inst_case(idx, (payload[0] + 5, None))
+    res = dict(idx=idx, text=r["text"], kinds=["xml_inst"], bad=None)
+    b = r["bad"]
+    if b and "pybind" in b["what"]:
+        res["bad"] = dict(b, what="the binding of one instantiation depends on the other requested instantiations (%s)" % b["what"])
+    return res
+
+
 def run(ctx, n, off=0, collect=True):
     first = None
     # second half: classes with many templated members (member-level templates next to each other)
     for r in (fw.run_cases(case, [(ctx.seed + off, None)] * n + [(ctx.seed + off + 1, dict(p_template=0.3, p_member_template=0.8, max_members=7, max_decls=3))] * (n // 2))
               + fw.run_cases(fwd_typedef_case, [(ctx.seed + off, None)] * max(10, n // 8))
-              + fw.run_cases(this_collision_case, [(ctx.seed + off, None)] * max(16, n // 8))):
+              + fw.run_cases(this_collision_case, [(ctx.seed + off, None)] * max(16, n // 8))
+              + fw.run_cases(default_spelling_case, [(ctx.seed + off, None)] * max(16, n // 8))
+              + fw.run_cases(xml_inst_case, [(ctx.seed + off, None)] * max(16, n // 8))):
         if "crash" in r:
             raise RuntimeError(r["crash"])
         if collect:
